@@ -149,6 +149,25 @@ P("C13",
   extra_assume=[DISC])
 
 
+P("C12",
+  "create_order with an ARBITRARY price on an arbitrary table, for each tick 1..10: Ok <=> the price is a multiple of the tick (market orders always); a rejected "
+  "creation reports (price, tick), consumes no id and leaves every existing record, every view and both side indexes unchanged; the grid invariant (every "
+  "limit order's price is a multiple of the tick) is re-established by placements and by modifications, with modify prices UNCONSTRAINED in the isolating harness.",
+  [book(f"c12_create_tick{t}_m2", f"create_order(any side, any volume, any u32 price | market), tick {t}", covers=["cover.limit_order_created", "cover.creation_rejected"], timeout=600,
+        tiers=("quick", "thorough") if t in (1, 2, 3, 7, 10) else ("thorough",)) for t in range(1, 11)]
+  + [book("c12_grid_place_tick3_off_m2", "placement (any kind) on a tick-3 book keeps every price on the grid; views == recomputation", covers=["cover.placed_while_disabled"]),
+     book("c12_grid_modify_ongrid_tick3_m2", "modify to any ON-grid price on a tick-3 book keeps the grid; views == recomputation", covers=["cover.modify_trades", "cover.modify_non_active"]),
+     book("c12_modify_any_price_tick3_m2", "modify_order with ANY new price on a tick-3 book keeps every resting price on the grid", role="C12.modify_offgrid_price", expect_fail=True, covers=["cover.modify_non_active"], timeout=600)],
+  bounds="table of 2 arbitrary entries (+1 created), ticks 1..10 enumerated (quick: 1,2,3,7,10), full-width prices incl. 0 and 2^32-1",
+  outside="ticks > 10; tables > 2 entries; environment-level creation is decided by C10's submission harnesses (same Ok <=> on-grid / no-trace assertions through Env::place_order)")
+
+P("C05",
+  "Placements that tie with a resting order (same side, same price, clock not advanced): afterwards every active order is still queued in its side index under its "
+  "own key, the index holds nothing else, and every view equals the recomputation from the order list.",
+  [book("c05_place_bid_limit_tie_m2", "bid limit arriving at the same price and timestamp as a resting bid", role="C05.tied_key_overwrite", expect_fail=True, covers=["cover.two_fills_then_remainder_rests"], covers_unsat_ok=["cover.two_fills_then_remainder_rests"]),
+   book("c05_place_ask_limit_tie_m2", "ask limit arriving at the same price and timestamp as a resting ask", role="C05.tied_key_overwrite", expect_fail=True, covers=["cover.two_fills_then_remainder_rests"], covers_unsat_ok=["cover.two_fills_then_remainder_rests"])],
+  outside="ties created by re-queuing modifications and over-full environment steps (to be added), tables > 2 entries")
+
 # ----------------------------------------------------------------------------------------------
 # step_sim crate (bourse-de)
 # ----------------------------------------------------------------------------------------------
@@ -165,7 +184,8 @@ STUB_LOOP = "OrderBook::process_event -> OrderBook::verif_log_event in the *_loo
 
 
 def de(name, what, tiers=("quick", "thorough"), bounds="", timeout=1200, covers=None, **kw):
-    d = {"name": name, "pkg": DE, "what": what, "tiers": tiers, "bounds": bounds, "timeout": timeout, "extra": FAST, "replayable": False}
+    # harnesses running under a #[kani::stub] cannot be rebuilt natively: the solver verdict stands, flagged in evidence
+    d = {"name": name, "pkg": DE, "what": what, "tiers": tiers, "bounds": bounds, "timeout": timeout, "extra": FAST, "replayable": "_loop_" not in name and not name.startswith("c17_")}
     if covers is not None:
         d["covers"] = covers
     d.update(kw)
@@ -226,6 +246,56 @@ PROPS["C15"] = {
                   de("c15_bijection_3", "L4: n = 3, injective + all 6 permutations reachable", timeout=300),
                   de("c15_bijection_4", "L4: n = 4, injective + all 24 permutations reachable", timeout=300),
                   STEP_HARNESSES[0], STEP_HARNESSES[1], STEP_HARNESSES[2]],
+}
+
+
+def kernel_tiers(kind, t):
+    quick = {"sell_limit_kernel": (2, 3, 7, 10), "buy_limit_kernel": (1, 4, 10), "sell_limit_kernel_market": (4,), "buy_limit_kernel_market": (6,)}[kind]
+    return ("quick", "thorough") if t in quick else ("thorough",)
+
+
+K1 = [de(f"c16_{kind}_tick{t}", f"{kind} at tick {t}: for every finite distribution draw >= 0 and every mid-price an uncrossed book can report, the kernel returns Ok, the order is on the right side, "
+         f"on the tick grid, at or beyond the mid, with the configured volume and trader", covers=[], tiers=kernel_tiers(kind, t), timeout=900)
+      for kind in ("sell_limit_kernel", "buy_limit_kernel", "sell_limit_kernel_market", "buy_limit_kernel_market") for t in range(1, 11)]
+K2 = [de("c16_cancel_kernel_p_zero", "cancel_live_orders, p_cancel = 0: nothing is cancelled, for ALL generator words", covers=["cover.two_live_orders"], timeout=900),
+      de("c16_cancel_kernel_p_one", "cancel_live_orders, p_cancel >= 1: every live tracked order is cancelled, nothing else", covers=["cover.two_live_orders"], timeout=900),
+      de("c16_cancel_kernel_p_interior", "cancel_live_orders, 0 < p_cancel < 1: cancels exactly the live tracked orders whose draw is <= p, keeps the others, one word per live order", covers=["cover.two_live_orders"], timeout=900)]
+
+PROPS["C16"] = {
+    "level": "model_checking",
+    "functions": ["agents::common::{place_buy_limit_order,place_sell_limit_order,place_buy_limit_order_market,place_sell_limit_order_market,round_price_up,round_price_down,cancel_live_orders}",
+                  "Env::{place_order,cancel_order,order_status}", "MarketEnv::place_order", "OrderBook::create_order", "rand::distributions::Standard for f32 (as compiled)"],
+    "assumptions": DE_ASSUME + ["price distribution = AnyDist: returns any finite f64 >= 0 (the log-normal's support; +inf excluded); mid-price = bid + 0.5 (ask - bid) of an uncrossed touch incl. the empty-side sentinels"],
+    "bounds": "ticks 1..10 enumerated (quick: a subset per kernel), ALL finite f64 draws and mid-prices (bit-precise), 2 tracked orders of arbitrary status for the cancel kernel, ALL generator words",
+    "outside": "whole update() of the random / noise agents (number of submitted orders is path dependent: symbolic-length vectors are out of CBMC's reach; planned with Env::place_order stubbed), runs of many steps, > 2 tracked orders, the statistical content of interior probabilities",
+    "explanation": "Kernel level: the four limit-price kernels over ALL finite draws and mid-prices at each tick 1..10 (Ok, right side, on the grid, buys <= mid <= sells, configured volume and trader, no randomness besides the distribution), and the cancel kernel over ALL generator words (cancels only tracked orders that were active, returns exactly the survivors, probability 0 never / >= 1 always, one word per live order).",
+    "stubs": ["LogNormal<f64> -> AnyDist in the generic kernels (the ziggurat sampler's loops are out of reach)"],
+    "harnesses": K1 + K2,
+}
+
+
+def py(name, what, tiers=("quick", "thorough"), timeout=600, covers=None, **kw):
+    d = {"name": name, "pkg": PY, "what": what, "tiers": tiers, "bounds": "", "timeout": timeout, "extra": FAST, "replayable": False, "covers": covers or []}
+    d.update(kw)
+    return d
+
+
+PY_ASSUME = ["numpy::PyArray::from_slice replaced by a recording stand-in (#[kani::stub]): the array handed to numpy is read back, the numpy C-API allocation itself is not executed",
+             "Python::assume_gil_acquired(): no interpreter is running; pyo3 argument extraction, exception objects and list building are outside the solver's claim",
+             "rustc/Kani MIR->goto translation, CBMC 6.11 and CaDiCaL are trusted"]
+
+PROPS["C19"] = {
+    "level": "model_checking",
+    "functions": ["bourse::step_sim::StepEnv::{level_1_data_array,level_2_data_array}", "bourse::step_sim_numpy::StepEnvNumpy::{level_1_data,level_2_data}", "numpy::ToPyArray for [T] / Vec<T> (as compiled, down to PyArray::from_slice)"],
+    "assumptions": PY_ASSUME,
+    "bounds": "all four array-returning methods; the cached Level2Data<10> (every one of its 44 fields its own variable) and the traded-volume counter fully symbolic",
+    "outside": "get_market_data dictionaries (HashMap<String, _> under SipHash is out of reach) and the pandas data-frame helpers in data_processing.py (Python, pandas not installed)",
+    "explanation": "For every market state behind the environment, each of the four observation arrays has the documented length (9 / 45) and element k holds the quantity the documentation assigns to index k: traded volume, bid price, ask price, bid volume, ask volume, then per level bid volume, bid order count, ask volume, ask order count.",
+    "stubs": ["numpy::PyArray::from_slice -> bourse::verif::stub_from_slice"],
+    "harnesses": [py("c19_stepenv_level_1_data_array", "StepEnv.level_1_data_array: length 9, element k == documented quantity k"),
+                  py("c19_stepenv_level_2_data_array", "StepEnv.level_2_data_array: length 45, element k == documented quantity k"),
+                  py("c19_numpyenv_level_1_data", "StepEnvNumpy.level_1_data: length 9, element k == documented quantity k"),
+                  py("c19_numpyenv_level_2_data", "StepEnvNumpy.level_2_data: length 45, element k == documented quantity k")],
 }
 
 NOT_APPLICABLE = {
